@@ -13,6 +13,10 @@ exhibit, because the goroutine concerned has not reached its first hook yet (or 
   first statement), and its `files` registration is inside `filesLock` (the model's
   `register` step is atomic with respect to the other writers).
 
+* a `Push` of a value of another type is rejected by the **first** statement of `Push` (the
+  model's `reject` block returns the error and changes nothing; were the check made later — after
+  the hand-over of a full chunk — a rejected call would spawn a writer).
+
 The facts are regenerated from `/repo/morass/morass.go` by go/ast on every run
 (`harness/props/c12_facts.go`); this theorem fails to check when one of them stops holding.
 -/
@@ -23,7 +27,8 @@ open Biogo.Generated.MorassFacts
 
 theorem model_matches_source_structure :
     pushAddsBeforeSpawn = true ∧ finaliseAddsWritesThenWaits = true ∧
-    writeDefersDoneFirst = true ∧ filesAppendUnderLock = true ∧ setErrLocks = true := by
+    writeDefersDoneFirst = true ∧ filesAppendUnderLock = true ∧ setErrLocks = true ∧
+    pushChecksTypeFirst = true := by
   decide
 
 end Biogo.Properties.C12_source
